@@ -8,7 +8,7 @@
 SRC=$HARNESS/target/c15s-src
 STAGE=$HARNESS/target/c15s-stage
 mkdir -p "$SRC" "$STAGE"
-rsync -a --delete --exclude .git --exclude target --exclude '/fuzz' /repo/ "$STAGE/" || { echo "MACHINERY-ERROR: copy of /repo failed" >&2; exit 2; }
+rsync -a --delete --exclude .git --exclude target --exclude '/fuzz' "$REPO/" "$STAGE/" || { echo "MACHINERY-ERROR: copy of /repo failed" >&2; exit 2; }
 python3 "$VERIF_ROOT/bin/c15s_rewrite.py" "$STAGE" >"$LOGDIR/c15s-rewrite.json" || { echo "MACHINERY-ERROR: rewrite failed" >&2; exit 2; }
 # content-compared copy: unchanged files keep their time stamps, so cargo rebuilds only what changed
 rsync -rlc --delete "$STAGE/" "$SRC/" || { echo "MACHINERY-ERROR: copy to build tree failed" >&2; exit 2; }
